@@ -16,8 +16,10 @@ import (
 	"os/exec"
 	"path/filepath"
 	"regexp"
+	"sort"
 	"strings"
 
+	"github.com/Syuparn/pangaea/object"
 	"github.com/Syuparn/pangaea/runscript"
 )
 
@@ -27,10 +29,11 @@ func init() {
 }
 
 type c19Req struct {
-	Style string `json:"style"` // exec | runtest
-	Name  string `json:"name"`  // file name of the probe (runtest)
-	Src   string `json:"src"`
-	Stdin string `json:"stdin"`
+	Style string            `json:"style"` // exec | runtest
+	Name  string            `json:"name"`  // file name of the probe (runtest)
+	Src   string            `json:"src"`
+	Stdin string            `json:"stdin"`
+	Files map[string]string `json:"files,omitempty"` // further files the probe needs (modules it imports)
 }
 
 type c19Obs struct {
@@ -41,11 +44,61 @@ type c19Obs struct {
 	Stdout  string `json:"stdout"`
 	Stderr  string `json:"stderr"`
 	Exit    int    `json:"exit"`
+	Consts  string `json:"consts"` // fingerprint of every built-in object bound to a constant (exec style)
 }
 
 func (o c19Obs) String() string {
 	b, _ := json.Marshal(o)
 	return string(b)
+}
+
+// constsFingerprint renders, for every constant of the base scope, the sorted property names of the object bound
+// to it with the kind of each value: "built-in objects keep their original properties".
+func constsFingerprint(base *object.Env) string {
+	names := []string{}
+	objs := map[string]object.PanObject{}
+	for g := base; g != nil; g = g.Outer() {
+		for h, v := range g.Store {
+			if sObj, ok := object.SymHash2Str(h); ok {
+				n := sObj.(*object.PanStr).Value
+				if len(n) > 0 && n[0] >= 'A' && n[0] <= 'Z' {
+					if _, seen := objs[n]; !seen {
+						names = append(names, n)
+						objs[n] = v
+					}
+				}
+			}
+		}
+	}
+	sort.Strings(names)
+	var sb strings.Builder
+	for _, n := range names {
+		po, ok := objs[n].(*object.PanObj)
+		if !ok || po.Pairs == nil {
+			continue
+		}
+		keys := []string{}
+		for _, p := range *po.Pairs {
+			k := "?"
+			if ks, ok := p.Key.(*object.PanStr); ok {
+				k = ks.Value
+			}
+			keys = append(keys, k+":"+string(p.Value.Type()))
+		}
+		sort.Strings(keys)
+		sb.WriteString(n + "{" + strings.Join(keys, ",") + "}\n")
+	}
+	return sb.String()
+}
+
+func firstDiffLine(a, b string) string {
+	al, bl := strings.Split(a, "\n"), strings.Split(b, "\n")
+	for i := 0; i < len(al) && i < len(bl); i++ {
+		if al[i] != bl[i] {
+			return fmt.Sprintf("%.300s  VS  %.300s", al[i], bl[i])
+		}
+	}
+	return "different number of constants"
 }
 
 func obsOf(o Outcome) c19Obs {
@@ -105,10 +158,17 @@ func refC19(c *Ctx) {
 	switch req.Style {
 	case "exec":
 		obs = obsOf(c.It.Run(req.Src, req.Stdin))
+		obs.Consts = constsFingerprint(c.It.base)
 	case "runtest":
 		dir, _ := os.MkdirTemp("", "verif-c19ref-")
 		defer os.RemoveAll(dir)
-		os.WriteFile(filepath.Join(dir, req.Name), []byte(req.Src), 0o644)
+		full := filepath.Join(dir, req.Name)
+		os.MkdirAll(filepath.Dir(full), 0o755)
+		os.WriteFile(full, []byte(req.Src), 0o644)
+		for n, content := range req.Files {
+			os.MkdirAll(filepath.Dir(filepath.Join(dir, n)), 0o755)
+			os.WriteFile(filepath.Join(dir, n), []byte(content), 0o644)
+		}
 		obs = runTestDir(dir, req.Name, req.Stdin)
 	}
 	c.Em.Emit(Rec{Impl: obs.String(), NT: false})
@@ -153,6 +213,14 @@ var c19Failing = []string{
 	"Int.at", "1.at([2, 3], 4, _)", "'_.S.p; _", "return _", "x := _", "import(\"nonexistent%d\")", "Str.new", "\"%d\".I / 0",
 }
 
+// programs that pass built-in objects through the constructs that copy / merge / extend objects
+var c19Builtins = []string{
+	"Mixin := {**Comparable, **Iterable}", "M%d := {**Iterable, **Comparable, x: %d}", "o := {**Int}", "%%{**Obj}.keys.len.p", "z := Comparable.bear({x: %d})", "Int.bear.new(%d).p",
+	"ks := [*Comparable.keys, *Iterable.keys]", "V := {new: m{|n| .bear({n: n})}, '<=>: m{|o| .n <=> o.n}, **Comparable}", "{**Either, **EitherVal}.keys.len.p", "{**Kernel, **Obj}.keys.len.p",
+	"Comparable.keys.p", "Iterable.keys.len.p", "{**Comparable}.keys.p", "Obj.keys.len.p", "Arr.bear({q: %d}).keys.p", "{**Str, **Arr, **Int}.keys.len.p", "Err.bear({k: %d}).keys.len.p",
+	"{|**kw| kw}(**Comparable).keys.p", "{|a: 1| a}(**Comparable, **Iterable)", "f := {|a: 1, b: 2| [a, b]}\nf(**{a: %d}, **{b: 1}).p",
+}
+
 var c19Benign = []string{
 	"\"t%d\".p", "%d.p", "[1, 2, 3]@{|e| e * %d}.p", "{a: %d}.p", "(1:%d).A.p", "{|| _}.try.A[0].p", "{|| 1 / 0}.try.err.p", "1.try.fmap {|v| v + %d}.val.p",
 	"nil", "<{|i| yield i; recur(i + 1)}>.new(%d).{|it| [it.next, it.next]}.p", "'sym%d.p", "Int.bear.new(%d).p", "Either.S.p", "_.S.p", "Either['A].p", "Either.keys.len.p", "Int.keys.len.p",
@@ -170,6 +238,9 @@ func c19Line(c *Ctx, defined *[]string, failing bool) string {
 	}
 	if failing {
 		return f(c19Failing[r.Intn(len(c19Failing))])
+	}
+	if r.Intn(5) == 0 {
+		return f(c19Builtins[r.Intn(len(c19Builtins))])
 	}
 	switch r.Intn(6) {
 	case 0, 1:
@@ -229,6 +300,8 @@ func c19Defined(progs []string) []string {
 	return out
 }
 
+var c19BuiltinsChanged = false
+
 var c19LineRe = regexp.MustCompile(`line: (\d+), col`)
 
 func genC19(c *Ctx) {
@@ -237,7 +310,11 @@ func genC19(c *Ctx) {
 		n = 8000
 	}
 	for i := 0; i < n; i++ {
-		style := []string{"exec", "exec", "runtest", "model"}[i%4]
+		style := []string{"exec", "exec", "runtest", "model", "exec", "import", "runtest", "model"}[i%8]
+		if style == "import" {
+			c19ImportCase(c)
+			continue
+		}
 		hlen := c.Rng.Intn(7)
 		hist := []string{}
 		// ---- action-programs for the Lean model ----
@@ -356,6 +433,7 @@ func genC19(c *Ctx) {
 			}
 			it.base.InjectIO(it.in, it.out)
 			after = obsOf(it.Run(probe, stdin))
+			after.Consts = constsFingerprint(it.base)
 		case "runtest":
 			dir, _ := os.MkdirTemp("", "verif-c19-")
 			for k, h := range hist {
@@ -379,8 +457,19 @@ func genC19(c *Ctx) {
 			continue
 		}
 		rec.Impl = after.String()
-		if after != fresh {
+		if after.Consts != fresh.Consts {
+			if c19BuiltinsChanged {
+				rec.Skip = "builtins-already-changed" // reported by the case that saw it first; this process stays changed
+			} else {
+				c19BuiltinsChanged = true
+				rec.Oracle = "a built-in object changed its properties: " + firstDiffLine(after.Consts, fresh.Consts)
+				rec.Impl = "builtins-changed"
+			}
+		} else if after != fresh {
 			rec.Oracle = fmt.Sprintf("after the history: %s ; in a new process: %s", after.String(), fresh.String())
+		}
+		if len(rec.Impl) > 3000 {
+			rec.Impl = rec.Impl[:3000]
 		}
 		if style == "runtest" && strings.HasPrefix(after.Stdout, "<probe not run>") {
 			rec.Skip = "history-file-failed"
@@ -388,4 +477,53 @@ func genC19(c *Ctx) {
 		}
 		c.Em.Emit(rec)
 	}
+}
+
+// c19ImportCase: `pangaea test` over several directories whose test files import a module by the same relative
+// path; the last directory's file is the probe and is compared with a run over that directory alone in a new process.
+func c19ImportCase(c *Ctx) {
+	nd := 2 + c.Rng.Intn(3)
+	files := map[string]string{}
+	order := []string{}
+	for d := 0; d < nd; d++ {
+		dn := fmt.Sprintf("d%d", d)
+		files[dn+"/helper.pangaea"] = fmt.Sprintf("name := \"mod%d\"\nv%d := %d\n", d, d, c.Rng.Intn(50))
+		body := "h := import(\"./helper\")\nh.name.p\nh.keys.p\n"
+		if c.Rng.Intn(3) == 0 {
+			body += "h2 := import(\"./helper\")\n(h2.name == h.name).p\n"
+		}
+		files[dn+"/t_test.pangaea"] = body
+		order = append(order, dn)
+	}
+	if !c.Mine() {
+		return
+	}
+	dir, _ := os.MkdirTemp("", "verif-c19imp-")
+	defer os.RemoveAll(dir)
+	for n, content := range files {
+		os.MkdirAll(filepath.Dir(filepath.Join(dir, n)), 0o755)
+		os.WriteFile(filepath.Join(dir, n), []byte(content), 0o644)
+	}
+	last := order[len(order)-1]
+	probeName := last + "/t_test.pangaea"
+	after := runTestDir(dir, probeName, "")
+	src := []string{}
+	for _, d := range order {
+		src = append(src, "# "+d+"/helper.pangaea\n"+files[d+"/helper.pangaea"]+"# "+d+"/t_test.pangaea\n"+files[d+"/t_test.pangaea"])
+	}
+	rec := Rec{Src: strings.Join(src, "\n=====\n"), NT: true, Tags: []string{"import", fmt.Sprintf("hist-%d", nd-1), "probe-runtest"}}
+	fresh, err := freshObs(c19Req{Style: "runtest", Name: probeName, Src: files[probeName], Files: map[string]string{last + "/helper.pangaea": files[last+"/helper.pangaea"]}})
+	if err != nil {
+		rec.Skip = "reference-failed"
+		rec.Impl = err.Error()
+		c.Em.Emit(rec)
+		return
+	}
+	rec.Impl = after.String()
+	if strings.HasPrefix(after.Stdout, "<probe not run>") {
+		rec.Skip = "history-file-failed"
+	} else if after != fresh {
+		rec.Oracle = fmt.Sprintf("after the other directories: %s ; in a new process: %s", after.String(), fresh.String())
+	}
+	c.Em.Emit(rec)
 }
